@@ -24,10 +24,26 @@ def run(chk, replay=None):
     chk.rule = ("grammar lines over every verb the tool declares and every line class (command / cmd-only / originating command / other components with attr.ns), pipelines with namespace-bearing "
                 "stages at any depth, planted database / collection names (Unicode, dotted collections, $cmd, system.*) and planted foreign names in stage arguments; flag on vs flag off; "
                 "non-trivial = distinct lines in which at least one name occurs")
-    on, off = Cfg(nss=True), Cfg()
     lines = [l for l, _ in cases]
-    ron, roff = run_lines(on, lines), run_lines(off, lines)
     hashes = {}
+    all_cases = cases
+    # the flag alone, and the flag together with field-name mode for some of the namespaces (the two features meet in attr.ns)
+    for on, off, cases in [(Cfg(nss=True), Cfg(), all_cases),
+                           (Cfg(nss=True, eager=['Dbq7z.Cq9w', 'Dq1', 'déb']), Cfg(eager=['Dbq7z.Cq9w', 'Dq1', 'déb']), all_cases[: (600 if th else 150)] + all_cases[-len(names):])]:
+      lines = [l for l, _ in cases]
+      ron, roff = run_lines(on, lines), run_lines(off, lines)
+      compare(chk, cases, on, off, ron, roff, hashes)
+    on = Cfg(nss=True); lines = [l for l, _ in all_cases]; ron = run_lines(on, lines[:50])
+    chk.streams.append({'stream': 'flag on vs off: changed positions and values, model vs implementation', 'cases': len(lines)})
+    # multi-line: the same namespace gets the same pseudonym on every line (two processes)
+    r2 = run_lines(on, lines[:50])
+    for (a, _), (b, _) in zip(ron[:50], r2):
+        chk.count()
+        if a != b: chk.violate('pseudonyms differ between two processes', {}, tags=['process'])
+    chk.sample({'input': lines[5].decode('utf-8', 'replace')[:500]})
+    chk.assumptions += ["`distinct` (and any verb outside the tool's declared list) is outside the property's claim"]
+
+def compare(chk, cases, on, off, ron, roff, hashes):
     def P(name):
         if name not in hashes:
             hashes[name] = unb64(run_harness([on.harness_req(), {"op": "hash", "s": b64(name)}])[1]['o']).decode()
@@ -35,14 +51,14 @@ def run(chk, replay=None):
     for (l, info), (ion, mon), (ioff, moff) in zip(cases, ron, roff):
         chk.count(); chk.traces += 1
         if ion != mon or ioff != moff: chk.drift += 1
-        case = {'input': l.decode('utf-8', 'replace')[:3000]}
+        case = {'input': l.decode('utf-8', 'replace')[:3000], 'cfg_on': on.describe()}
         if not isinstance(ion, bytes) or not isinstance(ioff, bytes):
             chk.violate('line not emitted', dict(case, on=str(ion)[:50], off=str(ioff)[:50]), tags=['dropped']); continue
         ton, toff, tmon, tmoff = jtree.parse(ion), jtree.parse(ioff), jtree.parse(mon) if isinstance(mon, bytes) else None, jtree.parse(moff) if isinstance(moff, bytes) else None
         def nsdiff(a, b):
             if a is None or b is None: return None
             la, lb = list(jtree.leaves(a)), list(jtree.leaves(b))
-            if [x[0] for x in la] != [x[0] for x in lb]: return 'SHAPE'
+            if [(x[0], x[1]) for x in la] != [(x[0], x[1]) for x in lb]: return 'SHAPE'
             return [(x[1], x[3], y[3]) for x, y in zip(la, lb) if x[3] != y[3]]
         di, dm = nsdiff(toff, ton), nsdiff(tmoff, tmon)
         if di != dm:
@@ -77,11 +93,3 @@ def run(chk, replay=None):
                 strform = kp[-1] in ('$out', '$unionWith', '$merge')
                 chk.violate('stage namespace replaced by something else than its pseudonym', dict(case, path=list(kp), name=val, got=str(nv)[:60]),
                             tags=['consistent', 'stage'] + (['nested_pipeline'] if nested and not strform else []) + (['string_form'] if strform else []))
-    chk.streams.append({'stream': 'flag on vs off: changed positions and values, model vs implementation', 'cases': len(lines)})
-    # multi-line: the same namespace gets the same pseudonym on every line (two processes)
-    r2 = run_lines(on, lines[:50])
-    for (a, _), (b, _) in zip(ron[:50], r2):
-        chk.count()
-        if a != b: chk.violate('pseudonyms differ between two processes', {}, tags=['process'])
-    chk.sample({'input': lines[5].decode('utf-8', 'replace')[:500]})
-    chk.assumptions += ["`distinct` (and any verb outside the tool's declared list) is outside the property's claim", "confinement inside the walkers is checked by the flag-on / flag-off correspondence stream, not by a theorem"]
